@@ -189,7 +189,8 @@ Definition resolve_short (F : family) (base nm : str) : str :=
   if has_dot nm then nm
   else match filter (fun k => str_eqb (c_name k) nm && is_subclass F (c_name k) base
                                 && negb (c_abstract k) && negb (is_private (path_of F (c_name k)))) (fam_classes F) with
-       | [k] => path_of F (c_name k)
+       | [k] => if ambiguous F base nm then nm   (* two candidates: the name denotes no class *)
+                else path_of F (c_name k)
        | _ => nm
        end.
 
